@@ -4,6 +4,7 @@ open Nitime.C01.Props
 #print axioms factor_exact_in_f64
 #print axioms toPs_int_exact
 #print axioms toPs_flt_nearest_of_product
+#print axioms toPs_flt_near
 #print axioms toPs_flt_exact_of_whole
 #print axioms rewrap_same_instant
 #print axioms rewrap_list_same_instants
